@@ -30,7 +30,10 @@ class StubAtoms:
         self.extra = {}
 
     # -- getters
-    def get_positions(self, wrap=False):
+    def get_positions(self, wrap=False, **kw):
+        if wrap and self.pbc.any():
+            f = self.get_scaled_positions(wrap=True)
+            return np.dot(f, self.cell)
         return self.positions.copy()
 
     def get_cell(self, complete=False):
